@@ -11,5 +11,6 @@ namespace cs
     void run_smart(const sim::Plan& plan, sim::RunResult& res, sim::RunHash& hash);
     void run_joint(const sim::Plan& plan, sim::RunResult& res, sim::RunHash& hash);
     void run_cont(const sim::Plan& plan, sim::RunResult& res, sim::RunHash& hash);
+    void run_deep(const sim::Plan& plan, sim::RunResult& res, sim::RunHash& hash);
     sim::Plan generate(const std::string& profile, std::uint64_t seed);
 } // namespace cs
